@@ -33,7 +33,7 @@ TReset ==
   /\ cfg' = [transport |-> E.transport, flavor |-> E.flavor, verify |-> E.verify]
   /\ sent' = <<>> /\ wsq' = <<>> /\ packed' = 0 /\ net' = <<>> /\ eof' = FALSE /\ abuf' = <<>>
   /\ rbuf' = <<>> /\ roff' = 0 /\ pc' = "idle" /\ pending' = 0 /\ pongleft' = 0
-  /\ wcur' = 0 /\ wleft' = 0 /\ wlen' = 0 /\ nwrites' = 0
+  /\ wcur' = 0 /\ wleft' = 0 /\ wlen' = 0 /\ nwrites' = 0 /\ wafter' = FALSE
   /\ out' = <<>> /\ units' = <<>> /\ results' = <<>>
   /\ nerr' = 0 /\ npend' = 0 /\ ncancel' = 0 /\ ntimeout' = 0
   /\ hist' = <<>> /\ rcount' = 0
@@ -75,11 +75,16 @@ TCancel    == IsEvent("Cancel") /\ Cancel /\ UNCHANGED rcount
 TWriteCall == IsEvent("WriteCall") /\ rcount = Len(results) /\ WriteCall(E.n) /\ UNCHANGED rcount
 TWriteDone == IsEvent("WriteDone") /\ pc = "idle" /\ E.res = "ok" /\ wleft = 0 /\ UNCHANGED <<vars, rcount>>
 
+\* a frame the harness decided not to send (the stand-alone codec could not classify it)
+TSkipped == IsEvent("Skipped") /\ UNCHANGED <<vars, rcount>>
+
 \* not observable: the decode attempt between two transport reads
-TSilent == pc = "loop" /\ TryDecode /\ UNCHANGED <<l, rcount>>
+TSilent == /\ \/ (pc = "loop" /\ TryDecode)
+              \/ PongFinish
+           /\ UNCHANGED <<l, rcount>>
 
 TNext == \/ TReset \/ TPeerSend \/ TPeerClose \/ TReadCall \/ TTRead \/ TTWrite \/ TResult
-         \/ TCancel \/ TWriteCall \/ TWriteDone \/ TSilent
+         \/ TCancel \/ TWriteCall \/ TWriteDone \/ TSkipped \/ TSilent
 TSpec == TInit /\ [][TNext]_tvars
 
 \* progress register (needs -workers 1)
